@@ -229,6 +229,12 @@ static void do_ops(char* ops, int in_cb) {
           close(l);
           fcntl(sv[1], F_SETFL, fcntl(sv[1], F_GETFL) | O_NONBLOCK);
           setsockopt(sv[1], IPPROTO_TCP, TCP_NODELAY, &one1, sizeof one1);
+          { /* no TIME_WAIT sockets pile up over many thousand cases: close = reset */
+            struct linger lg; lg.l_onoff = 1; lg.l_linger = 0;
+            if (sv[0] >= 0) setsockopt(sv[0], SOL_SOCKET, SO_LINGER, &lg, sizeof lg);
+            if (sv[1] >= 0) setsockopt(sv[1], SOL_SOCKET, SO_LINGER, &lg, sizeof lg);
+          }
+          if (sv[0] < 0 && sv[1] >= 0) { close(sv[1]); sv[1] = -1; }
           S[a].fd = sv[0]; f->peer = sv[1];
         }
         else if (k == 'p') { pipe2(sv, O_NONBLOCK); fcntl(sv[1], F_SETPIPE_SZ, 4096); S[a].fd = sv[0]; f->peer = sv[1]; }
